@@ -124,6 +124,26 @@ func execC01(ctx *core.Ctx, c *evCase) {
 			nLate++
 		}
 	}
+	c.complete = func(dels []eng.Delivery) bool {
+		wins, err := evDecode(dels)
+		if err != nil {
+			return true
+		}
+		seen := map[wkey]bool{}
+		for _, w := range wins {
+			g := "N"
+			if c.Grouped {
+				g = tkey(w.K)
+			}
+			seen[wkey{g, floorDiv(w.Start, c.SizeMs)}] = true
+		}
+		for k := range expect {
+			if !seen[k] {
+				return false
+			}
+		}
+		return true
+	}
 	res := c.run(len(slots))
 	attrs := evShape(c)
 	viol := func(kind, detail string) {
